@@ -27,6 +27,18 @@ type SeqRun struct {
 	Step    int
 }
 
+// knownReporter returns a reporter that lets the run continue past violations matching an
+// open known finding (they are counted in Stats under "known:<oracle>|<signature>").
+func (r *SeqRun) knownReporter() func(*Violation) bool {
+	return func(v *Violation) bool {
+		if IsKnown(v) {
+			r.Stats["known:"+v.Oracle+"|"+v.Signature]++
+			return false
+		}
+		return true
+	}
+}
+
 func (r *SeqRun) ev(format string, args ...any) {
 	r.trace = append(r.trace, fmt.Sprintf(format, args...)...)
 	r.trace = append(r.trace, '\n')
@@ -238,7 +250,7 @@ func (r *SeqRun) oracle(touched []string, final bool) *Violation {
 		}
 	case "C03":
 		lim := []int{1, 2}
-		v, q := CheckRelations(r.H, r.M, r.Pool, r.Preds, allScopes(r.M.Names()), lim)
+		v, q := CheckRelations(r.H, r.M, r.Pool, r.Preds, allScopes(r.M.Names()), lim, r.knownReporter())
 		r.Stats["queries"] += int64(q)
 		if v != nil {
 			return v
